@@ -173,9 +173,14 @@ class PriorityResource(Resource):
     """
     PutQueue = SortedQueue
 
-    def request(self, priority=0) -> PriorityRequest:
-        """Request usage of a ``resource`` with a given ``priority``"""
-        return PriorityRequest(self, priority)
+    def request(self, priority=0, preempt=True) -> PriorityRequest:
+        """
+        Request usage of a ``resource`` with a given ``priority``
+
+        If the resource supports preemption and ``preempt`` is true,
+        the request may preempt an already granted request of worse priority.
+        """
+        return PriorityRequest(self, priority, preempt)
 
 
 class Preempted(object):
@@ -208,7 +213,7 @@ class PreemptiveResource(PriorityResource):
     worse priority. Otherwise, the request  is queued until a previous request
     is :py:meth:`release`\ d and no request of better priority is queued.
     """
-    def __init__(self, env: Environment, capacity: int):
+    def __init__(self, env: Environment, capacity: int = 1):
         super().__init__(env, capacity)
         #: All :py:class:`~.Request`\ s currently granted for the resource.
         self.users = SortedQueue()  # type: SortedQueue[PriorityRequest]
